@@ -1054,3 +1054,51 @@ func ruleR086(c *Ctx) {
 	}
 	c.OK("funcGen#generated-closures-do-not-consume", token.NoPos, "%d generated closures of language constructs examined against %d consuming functions: none iterates a list", nLit, len(consuming))
 }
+
+// ---------------------------------------------------------------------------
+// R08.7 stages do not start their workers at once
+//
+// The iterator dependency has two families of parallel combinators. The *Auto
+// ones (MapAuto, FilterAuto) run the first elements sequentially on the
+// calling goroutine, measure, and only then hand over to workers; a consumer
+// that stops at the decisive element within that prefix has evaluated nothing
+// behind it. The *Parallel ones start one worker per CPU at the first element:
+// the callback runs for elements behind the decisive one, and an error of a
+// later element can be delivered with or before it. A stage of the value
+// package that calls a *Parallel combinator directly is no longer lazy.
+
+func ruleR087(c *Ctx) {
+	n := 0
+	for _, pkg := range c.RepoPkgs {
+		if !strings.HasPrefix(pkg.PkgPath, modPath) {
+			continue
+		}
+		info := pkg.TypesInfo
+		forEachFuncBody([]*packages.Package{pkg}, func(_ *packages.Package, fn ast.Node, body *ast.BlockStmt) {
+			inspectNoLit(body, func(x ast.Node) bool {
+				call, ok := x.(*ast.CallExpr)
+				if !ok {
+					return true
+				}
+				cal := Callee(info, call)
+				if cal == nil || cal.Pkg() == nil || !strings.HasSuffix(cal.Pkg().Path(), "hneemann/iterator") {
+					return true
+				}
+				if !strings.HasSuffix(cal.Name(), "Auto") && !strings.HasSuffix(cal.Name(), "Parallel") {
+					return true
+				}
+				n++
+				key := fmt.Sprintf("%s#iterator.%s", c.FuncName(fn)+litSuffix(c, fn), cal.Name())
+				if strings.HasSuffix(cal.Name(), "Parallel") {
+					c.Violation(key, call.Pos(), "the stage calls iterator.%s, which starts its workers with the first element instead of measuring a sequential prefix first (iterator.%s): the callback is evaluated for elements behind the one that decides a short-circuit consumer (first, present, indexWhere, ~), and a failure of a later element is reported although sequential evaluation never reaches it", cal.Name(), strings.TrimSuffix(cal.Name(), "Parallel")+"Auto")
+				} else {
+					c.OK(key, call.Pos(), "the measuring combinator: the first elements are evaluated sequentially on the calling goroutine")
+				}
+				return true
+			})
+		})
+	}
+	if n < 2 {
+		c.Undecided("value#parallel-combinators", token.NoPos, "only %d uses of the parallel combinators found", n)
+	}
+}
